@@ -21,10 +21,10 @@ FAMILY = "total"
 F1_SIG = "C08:F1:reader-diverges-external-mask-recursion"
 F1B_SIG = "C08:F1:reader-diverges-unmasked-recursion"
 F1J_SIG = "C08:F1:json-or-tl2-reader-diverges-on-unranked-schema"
-AMP_SIG = "C08:F18:total-allocation-superlinear-zero-size-elements"
-F19_SIG = "C08:F19:json-reader-allocates-tuple-by-nat-member"
-F20_SIG = "C08:F20:default-fill-diverges-infinite-default-value"
-F21_SIG = "C08:F21:reset-recursion-union-first-variant-contains-itself"
+AMP_SIG = "C08:alloc:total-allocation-superlinear-zero-size-elements"
+F19_SIG = "C08:json:reader-allocates-tuple-by-nat-member"
+F20_SIG = "C08:default-fill:diverges-infinite-default-value"
+F21_SIG = "C08:reset:recursion-union-first-variant-contains-itself"
 DRIVER_FILES = ["main.go", "ops_tl1.go", "ops_total.go"]
 
 F1_SCHEMA = """
@@ -381,10 +381,10 @@ def run(ctx):
                 for m in tlb.hostile_words(rng, t2, max_pos=3)[:6] + [bytes([x]) + t2[1:] for x in (0xfe, 0xff, 0x80) if t2]:
                     sup.append((f"rd2t {n} {m.hex() or '-'}", "tl2_hostile_size"))
         if dyn.get("cases.testInplaceStructArgs"):
-            # fixed probe of F19: 48 bytes of JSON, three # members that size tuples
+            # fixed probe of the JSON tuple-size finding: 48 bytes of JSON, three # members that size tuples
             sup.append(("rdjt cases.testInplaceStructArgs " + b'{"a1":4294967295,"a2":4294967295,"a3":4294967295}'.hex(), "json_hostile"))
         if "jd.top" in dyn:
-            # fixed probe of F20
+            # fixed probe of the default-fill finding
             for txt in (b'{"m":3}', b'{"m":1,"t":{"value":5}}', b'{"m":0}', b'{"m":3,"t":{"value":1,"left":{"value":2,"left":{"value":3}}}}'):
                 sup.append(("rdjt jd.top " + txt.hex(), "json_hostile"))
         # function-result transcoders
